@@ -15,12 +15,12 @@ import (
 )
 
 type result struct {
-	Shapes      int      `json:"shapes"`
-	Goroutines  int      `json:"goroutines"`
-	Iterations  int      `json:"iterations_per_goroutine"`
-	Requests    int64    `json:"requests"`
-	Mismatches  int64    `json:"mismatches"`
-	First       []string `json:"first_mismatches,omitempty"`
+	Shapes     int      `json:"shapes"`
+	Goroutines int      `json:"goroutines"`
+	Iterations int      `json:"iterations_per_goroutine"`
+	Requests   int64    `json:"requests"`
+	Mismatches int64    `json:"mismatches"`
+	First      []string `json:"first_mismatches,omitempty"`
 }
 
 func main() {
